@@ -54,7 +54,8 @@ LEVEL_NOTE = ("Model = RxModel/Comb.lean (uniform event rule, disposable plumbin
 "collapsed into one. The INLINE hand-over (subscription with an ImmediateScheduler, sources terminating inside subscribe) is the machine seqInlineM "
 "(handler followed by the action it armed); for it seq_one_live_inline, seq_output_concat_inline, seq_output_sorted_inline, repeat_n_subscribes_n_inline, "
 "retry_at_most_n_inline and retry_stops_on_completion_inline are proved (seq_next_after_terminal is specific to the queued hand-over). For sources that notify inside subscribe the position of their own unsubscribe is compared by time only. "
-"Not modelled: futures as sources. Trusted: logging sources/tap, the event-list replay.")
+"A raising for_in mapper / while_do condition is the item kind `fail` (the code wraps it into a source that fails at once: defer / throw), a raising "
+"iterator or on_error_resume_next factory the kind `raise`. Sources that complete or FAIL inside subscribe are also generated under the queued hand-over and for catch(handler). Not modelled: futures as sources. Trusted: logging sources/tap, the event-list replay.")
 
 LIST_OPS = ["concat", "ops_concat", "catch", "ops_catch_obs", "oern", "ops_oern", "start_with", "for_in", "catch_handler"]
 LOOP_OPS = ["repeat", "retry", "while_do", "do_while"]
@@ -265,12 +266,12 @@ def items_of(case):
         r = case["mapper_raises_at"]
         if r is None:
             return ["src"] * k, "stop"
-        return ["src"] * r + [{"raise": "mapper"}], "stop"
+        return ["src"] * r + [{"fail": "mapper"}], "stop"     # the mapper runs inside defer: a source that fails at once
     if op in ("repeat", "retry"):
         if case["count"] is None:
             return [], "src"
         return ["src"] * case["count"], "stop"
-    end = {"raise": "cond"} if case["cond_raises"] else "stop"
+    end = {"fail": "cond"} if case["cond_raises"] else "stop"      # a raising condition yields throw(ex)
     if op == "while_do":
         return ["src"] * case["cond_true"] + [end], "stop"
     if op == "do_while":
@@ -383,7 +384,7 @@ def oracle(case, out):
     if item(0) == "stop":
         expect.append([cc.SUBSCRIBE_AT, ["C"]]); fin = True
     elif item(0) != "src":
-        expect.append([cc.SUBSCRIBE_AT, ["E", item(0)["raise"]]]); fin = True
+        expect.append([cc.SUBSCRIBE_AT, ["E", item(0).get("raise") or item(0).get("fail")]]); fin = True
     for (p, s, nt, t) in acc:
         if fin or (disposed_pos is not None and p > disposed_pos):
             break
@@ -412,7 +413,7 @@ def oracle(case, out):
         if nx == "stop":
             expect.append([t, last_err if (kind == "catch" and last_err) else ["C"]])
         else:
-            expect.append([t, ["E", nx["raise"]]])
+            expect.append([t, ["E", nx.get("raise") or nx.get("fail")]])
         fin = True
     if got != expect:
         return f"{op}: got {got}, expected concatenation {expect}"
